@@ -285,7 +285,12 @@ void fb_read_bin(fb_t a, const uint8_t *bin, size_t len) {
 
 		bn_read_bin(t, bin, len);
 
-		fb_copy(a, t->dp);
+		/* Reject values out of bounds. */
+		if (bn_bits(t) > RLC_FB_BITS) {
+			RLC_THROW(ERR_NO_VALID);
+		} else {
+			fb_copy(a, t->dp);
+		}
 	}
 	RLC_CATCH_ANY {
 		RLC_THROW(ERR_CAUGHT);
